@@ -1,4 +1,5 @@
 import CobaldVerif.Drive.C08
+import CobaldVerif.Drive.C15
 import CobaldVerif.Model.Periodic
 
 namespace Cobald.Drive.C09
@@ -17,6 +18,9 @@ def parseEv (j : Json) : Except String Ev := do
 out: the demand after each event and the virtual time each step must have happened at -/
 def handle (j : Json) : Except String Json := do
   let kind ← getStr j "kind"
+  -- a FactoryPool under an environment: the history (demand writes, children changing their own
+  -- demand, one adjustment per interval) is replayed on the model of the adjustment (C15)
+  if kind == "factory_env" then return ← C15.handle j
   let interval ← getRat j "interval"
   let pre ← getBool j "pre"
   let evs ← (← getArr j "events").toList.mapM parseEv
